@@ -146,8 +146,12 @@ func validObjectName(name string) bool {
 	return true
 }
 
-var errInvalidObjectName = gofakes3.ErrorMessage(gofakes3.ErrInvalidArgument,
-	"object keys with empty, '.' or '..' path segments cannot be stored by this backend")
+// A new value per refusal: the front end writes the request id into the error
+// it answers with.
+func errInvalidObjectName() error {
+	return gofakes3.ErrorMessage(gofakes3.ErrInvalidArgument,
+		"object keys with empty, '.' or '..' path segments cannot be stored by this backend")
+}
 
 // checkKeyPath verifies that objectPath (slash separated, relative to fs and
 // below root) can hold an object without clobbering another one: a file
@@ -157,11 +161,11 @@ func checkKeyPath(fs afero.Fs, root, objectPath string) error {
 	root = path.Clean(root)
 	for dir := path.Dir(objectPath); dir != root && dir != "." && dir != "/"; dir = path.Dir(dir) {
 		if stat, err := fs.Stat(filepath.FromSlash(dir)); err == nil && !stat.IsDir() {
-			return errKeyConflict
+			return errKeyConflict()
 		}
 	}
 	if stat, err := fs.Stat(filepath.FromSlash(objectPath)); err == nil && stat.IsDir() {
-		return errKeyConflict
+		return errKeyConflict()
 	}
 	return nil
 }
@@ -199,5 +203,7 @@ func objectInTheWay(fs afero.Fs, root, dir string) bool {
 	return false
 }
 
-var errKeyConflict = gofakes3.ErrorMessage(gofakes3.ErrInvalidArgument,
-	"the key is a path prefix of an existing key or extends one; this backend cannot store both")
+func errKeyConflict() error {
+	return gofakes3.ErrorMessage(gofakes3.ErrInvalidArgument,
+		"the key is a path prefix of an existing key or extends one; this backend cannot store both")
+}
